@@ -119,6 +119,9 @@ def run(ctx: Ctx) -> None:
     lvar = lh.loop.target.id if isinstance(lh.loop.target, ast.Name) else None
     gets = [n for n in scfg.nodes if n.kind == "stmt" and isinstance(n.stmt, ast.Assign) and isinstance(n.stmt.value, ast.Call) and isinstance(n.stmt.value.func, ast.Attribute) and n.stmt.value.func.attr == "get"
             and norm(n.stmt.value.func.value).endswith(".namespaces")]
+    if not gets and any(isinstance(x, ast.Attribute) and x.attr == "namespaces" for x in ast.walk(fn)):
+        # another lookup idiom (subscript + KeyError, setdefault, ...): not decided here rather than guessed at
+        raise AnalysisError("on_namespace_start looks child scopes up in a way this rule does not model (expected `<parent>.namespaces.get(name)`)")
     ok = len(gets) == 1 and lvar is not None
     ctx.ob("R12.4", "simple:SimpleCxxVisitor.on_namespace_start|lookup by name", ok and norm(gets[0].stmt.value.args[0]) == lvar if ok else False,
            msg="the child scope is not looked up by the namespace name in the current parent's `namespaces`", node=fn, mod=sm)
